@@ -11,6 +11,13 @@ def main():
     t0 = time.time()
     os.makedirs(C.WORK, exist_ok=True)
     ok = True
+    # translators first: coq/gen/*.v are part of the Coq project
+    for prop, need in sorted(REGISTRY.items()):
+        for what, outfile in need.get("translate", []):
+            good, log = C.translate(what, outfile)
+            if not good:
+                ok = False
+                C.log("translator %s failed:\n%s" % (what, log[-2000:]))
     # Coq: full .vo build of every model, proof and property file
     C.coq_project()
     good, log = C.coq_make([], timeout=7000)
@@ -31,6 +38,12 @@ def main():
             if not out:
                 ok = False
                 C.log("go build %s failed:\n%s" % (g, err[-3000:]))
+        for g in need.get("overlay_go", []):
+            ov, err = C.make_overlay()
+            out, err2 = C.go_build(g, overlay=ov) if ov else (None, err)
+            if not out:
+                ok = False
+                C.log("go build %s (overlay) failed:\n%s" % (g, (err or err2)[-3000:]))
         for name, ev, dv in need.get("extract", []):
             if name in seen:
                 continue
